@@ -1050,6 +1050,21 @@ def Q(F, rep, R, FL):
         extra = set(lst) - allowed.get(m, {'empty', 'size'})
         rep.ob('Q1', 'ops|%s' % m, not extra, None, 'ObjectQueue::%s uses m_queue.{%s}%s' % (m, ','.join(sorted(set(lst))),
                                                                                          '' if not extra else ' - not FIFO discipline: ' + ','.join(sorted(extra))), nontrivial=True)
+    # Q3: capacity is exact - a producer is held back while size() == capacity: the admission atom is  size() < m_bufferSize
+    rep.count('Q3')
+    wr = [f for f in methods_of(F, cls) if f['simple'] == 'write']
+    atoms = []
+    for f in wr:
+        for n in walk(f['body']):
+            if n.get('k') == 'Lambda':
+                for x in walk(n['body']):
+                    if x.get('k') == 'Bin' and x.get('op') in ('<', '<=', '>', '>='):
+                        atoms.append((expr_str(x['lhs']), x['op'], expr_str(x['rhs'])))
+    ok = any((a[0] == 'm_queue.size()' and a[1] == '<' and a[2] == 'm_bufferSize') or
+             (a[0] == 'm_bufferSize' and a[1] == '>' and a[2] == 'm_queue.size()') for a in atoms)
+    rep.ob('Q3', 'write|capacity-exact', ok, rep.fn_site(wr[0]) if wr else None,
+           'ObjectQueue::write is admitted exactly while m_queue.size() < m_bufferSize' if ok else
+           'ObjectQueue::write admission test is %s: the queue can exceed (or never reach) its configured capacity' % (atoms or 'missing'), nontrivial=True)
     # Q2 on read(): path shape
     rd = [f for f in methods_of(F, cls) if f['simple'] == 'read']
     if len(rd) != 1:
